@@ -32,7 +32,9 @@ type vfShut struct {
 	Faults []vfFault
 	IL     bool
 	Late   bool // shutdown is called after half of the data moved
-	Base   [2]uint32
+	Stray  int  // chunk type of a stray control chunk (SHUTDOWN-ACK 8, SHUTDOWN-COMPLETE 14; 0 = none) that reaches the caller
+	// right after its Shutdown call, while its data is still outstanding: not what the peer sent, to be ignored
+	Base [2]uint32
 }
 
 func vfRunShut(t *testing.T, tr *vfTrace, x vfShut) bool {
@@ -100,6 +102,13 @@ func vfRunShut(t *testing.T, tr *vfTrace, x vfShut) bool {
 		}
 		if x.Who == 1 || x.Who == 2 {
 			call(1)
+		}
+		if x.Stray != 0 {
+			for ep := 0; ep < 2; ep++ {
+				if x.Who == ep || x.Who == 2 {
+					w.inject(ep, w.vfForge(ep, vfEncChunk(x.Stray, 0, nil)), "stray-shutdown-chunk", false)
+				}
+			}
 		}
 		start := time.Now()
 		for time.Since(start) < 400*time.Second {
@@ -173,6 +182,25 @@ func init() {
 		}
 		r := rand.New(rand.NewSource(seed))
 		k := 0
+		// a stray SHUTDOWN-ACK / SHUTDOWN-COMPLETE reaches an endpoint that has called Shutdown and still has data
+		// outstanding (SHUTDOWN-PENDING): it completes nothing
+		for _, stray := range []int{8, 14} {
+			for who := 0; who < 3; who++ {
+				for _, lose := range []int{1, 2} {
+					for _, il := range []bool{false, true} {
+						k++
+						if k%nshards != shard {
+							continue
+						}
+						x := vfShut{Label: fmt.Sprintf("shutdown-stray%d-w%d-l%d-il%v#%d", stray, who, lose, il, k), Who: who, NMsgA: 3, NMsgB: 2, Stray: stray,
+							Faults: []vfFault{{"data", 0, lose, false}, {"data", 1, 1, false}}, IL: il, Base: [2]uint32{uint32(k * 7919), uint32(0) - uint32(k%5)}}
+						if vfRunShut(t, tr, x) {
+							t.Fatalf("scenario %s hung", x.Label)
+						}
+					}
+				}
+			}
+		}
 		for who := 0; who < 3; who++ {
 			for _, nm := range [][2]int{{0, 0}, {1, 0}, {3, 1}, {4, 2}} {
 				for si, fs := range sets {
